@@ -304,7 +304,8 @@ Inductive stmt :=
 | SCallS (f : nat) (args : list expr)          (* external handler, statement position *)
 | SLCallS (f : nat) (args : list expr)         (* handler of this script, statement position *)
 | SSetObj (f : ofam) (pid : nat) (o v : expr)  (* set the <property pid> of <sound / sprite / cast> o to v *)
-| SSetThe (k : thekind) (i : nat) (v : expr).  (* set the <special / system property i> to v (5D 00 / 5D 07) *)
+| SSetThe (k : thekind) (i : nat) (v : expr)   (* set the <special / system property i> to v (5D 00 / 5D 07) *)
+| SSetAcc (n : nat) (o v : expr).              (* set the <names[n]> of o to v (62 n) *)
 
 Definition compile_store (t : target) : bytes :=
   match t with
@@ -321,6 +322,7 @@ Definition compile_s (s : stmt) : bytes :=
   | SLCallS f args => flat_map compile_e args ++ compile_arglist (List.length args) false ++ [b 86; b (Z.of_nat f)]
   | SSetObj f pid o v => compile_e o ++ compile_e v ++ compile_int (Z.of_nat pid) ++ [b 93; b (fcode f)]
   | SSetThe k i v => compile_e v ++ compile_int (the_num k i) ++ [b 93; b (the_code k)]
+  | SSetAcc n o v => compile_e o ++ compile_e v ++ [b 98; b (Z.of_nat n)]
   end.
 Definition ninstr_s (s : stmt) : nat :=
   match s with
@@ -328,6 +330,7 @@ Definition ninstr_s (s : stmt) : nat :=
   | SCallS _ args | SLCallS _ args => (fold_right (fun x a => ninstr x + a) 0 args + 2)%nat
   | SSetObj _ _ o v => (ninstr o + (ninstr v + 2))%nat
   | SSetThe _ _ v => (ninstr v + 2)%nat
+  | SSetAcc _ o v => (ninstr o + (ninstr v + 1))%nat
   end.
 
 (* the declared properties of the script, as the parser's context holds them *)
@@ -361,6 +364,10 @@ Definition reify_s (en : env) (props : list string) (pc : Z) (s : stmt) : node :
   | SSetThe k i v =>
     let ps := pc + zlen (compile_e v) + zlen (compile_int (the_num k i)) in
     Stmt ps (Binary "assign" ps (the_node k i ps) (reify_e en pc v))
+  | SSetAcc n o v =>
+    let pv := pc + zlen (compile_e o) in
+    let ps := pv + zlen (compile_e v) in
+    Stmt ps (Binary "assign" ps (Accessor ps (reify_e en pc o) (nm en n)) (reify_e en pv v))
   end.
 
 Definition globals_s (en : env) (pc : Z) (s : stmt) : list node :=
@@ -369,6 +376,7 @@ Definition globals_s (en : env) (pc : Z) (s : stmt) : list node :=
   | SCallS _ args | SLCallS _ args => globals_args en pc args
   | SSetObj _ _ o v => globals_e en pc o ++ globals_e en (pc + zlen (compile_e o)) v
   | SSetThe _ _ v => globals_e en pc v
+  | SSetAcc _ o v => globals_e en pc o ++ globals_e en (pc + zlen (compile_e o)) v
   end.
 
 Definition wf_target (en : env) (t : target) : Prop :=
@@ -384,6 +392,7 @@ Definition wf_s (en : env) (s : stmt) : Prop :=
   | SLCallS f args => (f < List.length (e_lfuncs en))%nat /\ Z.of_nat f < 256 /\ Z.of_nat (List.length args) < 65536 /\ wf_args en args
   | SSetObj f pid o v => assignable f = true /\ (pid < List.length (ftable f))%nat /\ wf_e en o /\ wf_e en v
   | SSetThe k i v => (k = TSpecial \/ k = TSystem) /\ (i < List.length (the_table k))%nat /\ wf_e en v
+  | SSetAcc n o v => (n < List.length (e_names en))%nat /\ Z.of_nat n < 256 /\ wf_e en o /\ wf_e en v
   end.
 
 (* a straight-line handler: its statements, then the handler's exit opcode *)
